@@ -163,6 +163,12 @@ func init() {
 		}
 		return nil
 	})
+	vreg("vAllocated", func(p *Path, th *thread, caller *frame, pos token.Pos, fn *ssa.Function, args []Value) Value {
+		if p.allocTerm == nil {
+			return BV(64, 0)
+		}
+		return p.allocTerm
+	})
 	vreg("vTimerPending", func(p *Path, th *thread, caller *frame, pos token.Pos, fn *ssa.Function, args []Value) Value {
 		t := p.timerOf[args[0].(*Value)]
 		if t == nil {
